@@ -12,6 +12,7 @@
 import KiraModel.Proofs.ChanLemmas
 import KiraModel.Proofs.StoreLemmas
 import KiraModel.Model.CommandReaders
+import KiraModel.Model.SoundDelivery
 
 namespace K
 open Chan
@@ -245,6 +246,68 @@ theorem C07_not_lost_before_first_callback_burst {cap : Nat} {held : List Key} {
   simp only at hx; rw [l1] at hx; cases hx
   exact ⟨c', hg, by simpa using ha⟩
 
+/-- **pickup and `on_start_processing` happen in the same callback** (any storage, any resource).
+    `Cmd.callbackWith test f` is the shape of `Track::on_start_processing` / `MainTrack::on_start_processing`
+    for the track's sounds (and of every other storage): `remove_and_add` first, then `f` =
+    `on_start_processing` of every resource in the storage.  Whatever the (well-formed) storage looks
+    like, a resource waiting in the new-resource ring is, after that callback, in the arena under its
+    key with `f` applied to it exactly once — its first `on_start_processing` (where it reads its
+    command readers) is not postponed to the next callback. -/
+theorem C07_pickup_runs_on_start {τ : Type} {cap : Nat} {held : List Key} {s s' : Store τ}
+    (wf : Store.WF cap held s) (test : τ → Bool) (f : τ → τ) (k : Key) (c : τ)
+    (hin : (k, c) ∈ s.newRing.items) (hcb : Cmd.callbackWith test f s = .ok s') :
+    s'.arena.get? k = some (f c) := by
+  simp only [Cmd.callbackWith, Store.removeAndAdd, Store.drainPhase, Store.addPhase] at hcb
+  cases h1 : Store.drainLoop test s.arena.order s with
+  | error e => simp [h1] at hcb
+  | ok s1 =>
+    simp only [h1] at hcb
+    obtain ⟨wf1, hn1, _⟩ := Store.wf_drainLoop test s.arena.order s s1 wf (Store.order_nodup' wf) (fun i hi => hi) h1
+    cases h2 : Store.addItems s1.newRing.items s1 with
+    | error e => simp [h2] at hcb
+    | ok q =>
+      obtain ⟨s2, ks⟩ := q
+      simp [h2] at hcb; subst hcb
+      obtain ⟨_, _, _, _, _, _, _, hin2, _⟩ := Store.wf_addItems s1.newRing.items s1 s2 ks wf1 rfl h2
+      have := hin2 (k, c) (by rw [hn1]; exact hin)
+      simp only [Arena.get?, Arena.mapData, List.getElem?_map, this]
+      simp
+
+section StaticSoundDelivery
+variable {α : Type} [Add α] [Sub α] [Mul α] [Div α] [Neg α] [LT α] [LE α]
+  [DecidableLT α] [DecidableLE α] [OfScientific α] [KOps α]
+
+/-- **a static sound applies the pending commands of all nine kinds in the same callback.**
+    One `on_start_processing` of a static sound (`Cmd.StaticComp.onStart`: `read_commands` reads the
+    readers of `staticReaders` once each — pause, resume and stop are three independent reads, not
+    alternatives) hands the sound, for *every* kind with a pending command, the last value written,
+    and nothing for the other kinds; the channels it leaves behind are exactly those after these
+    reads, and a second `read_commands` with no write in between delivers nothing: several commands
+    of different kinds issued in one inter-callback interval all take effect at the next callback,
+    none is left for a later one.  And this is also true of a sound's *first* callback on whatever
+    track it plays: the callback that picks it up out of the new-resource ring runs this very
+    `on_start_processing` (`C07_pickup_runs_on_start` with `Cmd.soundsOnStart`). -/
+theorem C07_static_sound_all_kinds_same_callback (c : Cmd.StaticComp α)
+    (hr : ∀ k, Reachable (c.chans k) ∧ (c.chans k).rpc = .idle) :
+    (∀ k, (c.chans k).dirty = true →
+        ∃ x, (c.chans k).lastPub = some x ∧ (k, some x.2) ∈ (c.chans.drain Cmd.staticReaders).2)
+    ∧ (∀ k, (c.chans k).dirty = false → (k, none) ∈ (c.chans.drain Cmd.staticReaders).2)
+    ∧ (∀ q ∈ ((c.chans.drain Cmd.staticReaders).1.drain Cmd.staticReaders).2, q.2 = none)
+    ∧ (c.fault = none → c.onStart.chans = (c.chans.drain Cmd.staticReaders).1)
+    ∧ (∀ {cap : Nat} {held : List Key} {s s' : Store (Cmd.StaticComp α)} (k : Key),
+        Store.WF cap held s → (k, c) ∈ s.newRing.items → Cmd.soundsOnStart s = .ok s' →
+        s'.arena.get? k = some c.onStart) := by
+  have hmem : ∀ k : Cmd.StaticKind, k ∈ Cmd.staticReaders := fun k => by cases k <;> decide
+  obtain ⟨_, h2, h3, _, h5⟩ := C07_drain_delivers_once Cmd.staticReaders (by decide) c.chans (fun k _ => hr k)
+  refine ⟨fun k hd => h2 k (hmem k) hd, fun k hd => h3 k (hmem k) hd, h5, ?_, ?_⟩
+  · intro hf
+    simp only [Cmd.StaticComp.onStart, hf]
+    split <;> rfl
+  · intro cap held s s' k wf hin hcb
+    exact C07_pickup_runs_on_start wf _ _ k c hin hcb
+
+end StaticSoundDelivery
+
 /-! ### non-vacuity -/
 
 /-- a write racing a read: the reader has tested the dirty bit, the writer is half-way through the
@@ -263,5 +326,10 @@ example : (Chan.run (Chan.init : St Nat)
     [.wHalf1 1, .wHalf2, .wPublish, .rTest, .rSwap, .wHalf1 2, .rRead1, .wHalf2, .wPublish, .rRead2,
      .rTest, .rSwap, .rRead1, .rRead2, .rTest]).map (fun r => r.2.filterMap (fun x => match x with
         | .read c => some (c.a.map (·.2)) | .none => none)) = some [some 1, some 2, none] := by rfl
+
+/-- a pause, a stop and a seek written in the same interval are all handed over by one
+    `read_commands` of a static sound (in its read order), the other six readers return nothing -/
+example : (((((Chan.Prod.init : Chan.Prod Cmd.StaticKind Nat).writeOp .seekBy 3).writeOp .pause 1).writeOp .stop 2).drain
+    Cmd.staticReaders).2.filter (·.2.isSome) = [(.pause, some 1), (.stop, some 2), (.seekBy, some 3)] := by rfl
 
 end K
